@@ -90,7 +90,11 @@ func (a *IBCAdapter) ParsePacket(
 		return nil, core.ErrNoOrbiterPacket.Wrap("data is not ICS20 packet")
 	}
 
-	if packet.GetReceiver() != core.ModuleAddress.String() {
+	// NOTE: the receiver is compared by address and not by string because a bech32 string has
+	// more than one valid encoding (e.g. all upper case) and the ICS20 app credits the decoded
+	// address.
+	receiver, err := sdk.AccAddressFromBech32(packet.GetReceiver())
+	if err != nil || !receiver.Equals(core.ModuleAddress) {
 		return nil, core.ErrNoOrbiterPacket.Wrap("receiver is not Orbiter module")
 	}
 
